@@ -128,7 +128,7 @@ def main(tier):
     rng = H.rng(PROP)
     ovs = overloads(prog)
     gaps = sorted(set(c01.gaps_for(tier, rng)) | set(range(0, 1101)) | {2 ** k + d for k in range(8, 13) for d in (-1, 0, 1, 19, 20)})
-    divisors = [1, -1, 2, -3, 7, 10, -10, 25, 50] if tier == 'quick' else sorted(set(list(range(1, 51)) + [-d for d in range(1, 51)]))
+    divisors = [1, -1, 2, -3, 7, 10, -10, 25, 50] if tier == 'quick' else sorted(set(list(range(1, 151)) + [-d for d in range(1, 151)] + [997, -997, 10 ** 19 + 1, 2 ** 64 - 1, -(2 ** 64 + 1)]))
     tasks = []
     for ov in ovs:
         for g in gaps:
